@@ -176,12 +176,12 @@ def install(lib):
     def gd_const(c):
         d = c.args["delay"]
         val = gd_val(c)
-        return Clause("constant-is-returned-as-is", lambda c: z3.Implies(z3.Not(drawn_of(d)), V.eq(val, d)), ("C08",))
+        return Clause("constant-is-returned-as-is", lambda c: z3.Implies(z3.Not(drawn_of(d)), V.same_dyn(val, d)), ("C08",))
 
     def gd_post(c):
         val = gd_val(c)
         return [gd_const(c),
-                Clause("result-is-the-drawn-value", lambda c: V.eq(V.dyn_of(c.res), val), ("C08",)),
+                Clause("result-is-the-drawn-value", lambda c: V.same_dyn(c.res, val), ("C08",)),
                 Clause("result-nonnegative-number", lambda c: z3.And(val.is_num(), val.num >= 0), ("C20", "C08")),
                 gd_record(c)]
     C["Node"]["get_delay"] = FnContract(
@@ -335,8 +335,8 @@ def install(lib):
             d = o.f[fld]
             v = val(c)
             items = [
-                Clause("constant-index-used-as-is", lambda c: z3.Implies(is_int(d), V.eq(v, d)), ("C15",)),
-                Clause("result-is-the-value-obtained", lambda c: V.eq(V.dyn_of(c.res), v), ("C15",)),
+                Clause("constant-index-used-as-is", lambda c: z3.Implies(is_int(d), V.same_dyn(v, d)), ("C15",)),
+                Clause("result-is-the-value-obtained", lambda c: V.same_dyn(c.res, v), ("C15",)),
             ] + ([Clause("result-in-range", lambda c: in_range(c), ("C15", "C20"))] if records else []) + [
                 Structural("policy-consulted-exactly-once", lambda c: consults_ok(c, d, also_int=True), ("C15",),
                            caller_effect=lambda c: c.new.ghost.setdefault("consults", []).append(
